@@ -316,12 +316,29 @@ Proof.
   unfold ocnt, in_results. lia.
 Qed.
 
+Lemma all_fresh_spec s ds :
+  all_fresh s ds = true ->
+  NoDup ds /\ forall d, In d ds -> ~ In d (kopen s) /\ is_std d = false /\ fst d < two31.
+Proof.
+  unfold all_fresh. destruct ds as [|d1 [|d2 [|d3 r]]]; try discriminate.
+  - intros F. apply fresh_spec in F. split; [repeat constructor; intros []|].
+    intros d [<-|[]]. tauto.
+  - rewrite !andb_true_iff, negb_true_iff. intros ((F1 & F2) & F3).
+    apply fresh_spec in F1. apply fresh_spec in F2. split.
+    + constructor; [|repeat constructor; intros []]. intros [E|[]]. subst d2.
+      assert (desc_eqb d1 d1 = true) by (apply desc_eqb_eq; reflexivity). congruence.
+    + intros d [<-|[<-|[]]]; tauto.
+Qed.
+
+Lemma all_fresh_set_op s i o ds : all_fresh (set_op s i o) ds = all_fresh s ds.
+Proof. destruct ds as [|d1 [|d2 [|d3 r]]]; reflexivity. Qed.
+
 Lemma inv_deliver s i o o' c :
   Inv s -> nth_error (ops s) i = Some o -> o_kind o' = o_kind o ->
   (forall d, cnt (opdescs o) d = (cnt (opdescs o') d + cnt (pair_kind (o_kind o) (cqe_fds c)) d)%nat) ->
   Inv (fst (deliver s i o' c)).
 Proof.
-  intros HI Hn Hk Hc. unfold deliver, cqe_fds in *. destruct (fst c) as [fds|e].
+  intros HI Hn Hk Hc. unfold deliver, deliver_with, cqe_fds in *. destruct (fst c) as [fds|e|fds].
   - assert (Hb : forall fd, In fd fds -> fd < two31).
     { intros fd Hfd. change fd with (fst (fd, o_kind o)). eapply opdescs_bound; [exact HI|exact Hn|].
       apply cnt_pos_In. rewrite Hc. assert (In (fd, o_kind o) (pair_kind (o_kind o) fds)) by (apply In_pair_kind; eauto).
@@ -333,6 +350,22 @@ Proof.
   - cbn [fst]. apply (inv_move s); [exact HI|fr|].
     intros d. ounfold. pose proof (cnt_flat_map_set_nth opdescs _ _ _ o' d Hn).
     specialize (Hc d). cbn [pair_kind map count_occ] in Hc. lia.
+  - (* PipeOp::fallback: pipe2(2) issues two process descriptors, wrapped as Regular *)
+    rewrite all_fresh_set_op. unfold pipe_fallback_kind.
+    destruct (all_fresh s (pair_kind Regular fds)) eqn:F.
+    + apply all_fresh_spec in F. destruct F as (ND & Hds).
+      assert (Hb : forall fd, In fd fds -> fd < two31).
+      { intros fd Hfd. change fd with (fst (fd, Regular)). apply Hds. apply In_pair_kind; eauto. }
+      pose proof (hand_out_spec Regular fds (issue (set_op s i o') (pair_kind Regular fds)) Hb)
+        as ((K1 & K2 & K3 & K4) & E1 & E2 & E3 & E4 & E5 & E6).
+      cbv zeta in *. proj.
+      apply (inv_issue s _ (pair_kind Regular fds)); try assumption.
+      intros d. unfold ocnt, in_results, closing, queued_closes. rewrite E1, E2, E3, E4, E5, E6. ounfold.
+      pose proof (cnt_flat_map_set_nth opdescs _ _ _ o' d Hn). specialize (Hc d).
+      cbn [pair_kind map count_occ] in Hc. lia.
+    + cbn [fst]. apply (inv_move s); [exact HI|fr|].
+      intros d. ounfold. pose proof (cnt_flat_map_set_nth opdescs _ _ _ o' d Hn).
+      specialize (Hc d). cbn [pair_kind map count_occ] in Hc. lia.
 Qed.
 
 Lemma inv_set_op_same s i o o' :
@@ -361,7 +394,7 @@ Qed.
 
 Lemma inv_poll_op s i : Inv s -> Inv (fst (poll_op s i)).
 Proof.
-  intros HI. unfold poll_op. destruct (nth_error (ops s) i) as [o|] eqn:Hn; [|exact HI].
+  intros HI. unfold poll_op, poll_op_with. destruct (nth_error (ops s) i) as [o|] eqn:Hn; [|exact HI].
   destruct (o_st o) eqn:Hst.
   - destruct (room s); [|exact HI]. cbn [fst]. apply inv_push_free; [|reflexivity].
     eapply inv_set_op_same; [exact HI|exact Hn|reflexivity].
@@ -405,20 +438,6 @@ Proof.
   apply G; [apply inv_push_free; [exact HI|reflexivity]|exact Hn].
 Qed.
 
-Lemma all_fresh_spec s ds :
-  all_fresh s ds = true ->
-  NoDup ds /\ forall d, In d ds -> ~ In d (kopen s) /\ is_std d = false /\ fst d < two31.
-Proof.
-  unfold all_fresh. destruct ds as [|d1 [|d2 [|d3 r]]]; try discriminate.
-  - intros F. apply fresh_spec in F. split; [repeat constructor; intros []|].
-    intros d [<-|[]]. tauto.
-  - rewrite !andb_true_iff, negb_true_iff. intros ((F1 & F2) & F3).
-    apply fresh_spec in F1. apply fresh_spec in F2. split.
-    + constructor; [|repeat constructor; intros []]. intros [E|[]]. subst d2.
-      assert (desc_eqb d1 d1 = true) by (apply desc_eqb_eq; reflexivity). congruence.
-    + intros d [<-|[<-|[]]]; tauto.
-Qed.
-
 Lemma inv_kcomplete s i fd fd2 more : Inv s -> Inv (kcomplete s i fd fd2 more).
 Proof.
   intros HI. unfold kcomplete. destruct (nth_error (ops s) i) as [o|] eqn:Hn; [|exact HI].
@@ -439,6 +458,15 @@ Lemma inv_kfail s i e : Inv s -> Inv (kfail s i e).
 Proof.
   intros HI. unfold kfail. destruct (nth_error (ops s) i) as [o|] eqn:Hn; [|exact HI].
   destruct (o_kin o && plain_errno e); [|exact HI].
+  eapply inv_set_op_same; [exact HI|exact Hn|]. intros d.
+  unfold opdescs. cbn [with_kin with_posted o_kind o_posted o_res].
+  unfold cqes_fds. rewrite flat_map_app. cbn [flat_map cqe_fds fst]. rewrite !app_nil_r. reflexivity.
+Qed.
+
+Lemma inv_kpipe_inval s i fd fd2 : Inv s -> Inv (kpipe_inval s i fd fd2).
+Proof.
+  intros HI. unfold kpipe_inval. destruct (nth_error (ops s) i) as [o|] eqn:Hn; [|exact HI].
+  destruct (o_kin o && cop_pair (o_cop o)); [|exact HI].
   eapply inv_set_op_same; [exact HI|exact Hn|]. intros d.
   unfold opdescs. cbn [with_kin with_posted o_kind o_posted o_res].
   unfold cqes_fds. rewrite flat_map_app. cbn [flat_map cqe_fds fst]. rewrite !app_nil_r. reflexivity.
@@ -650,7 +678,7 @@ Qed.
 
 Lemma inv_step s e : Inv s -> Inv (fst (step s e)).
 Proof.
-  intros HI. destruct e; cbn [step fst].
+  intros HI. unfold step. destruct e; cbn [step_with fst].
   - apply inv_adopt; exact HI.
   - apply inv_std_stream; exact HI.
   - apply inv_new_op; exact HI.
@@ -658,6 +686,7 @@ Proof.
   - apply inv_drop_op; exact HI.
   - apply inv_kcomplete; exact HI.
   - apply inv_kfail; exact HI.
+  - apply inv_kpipe_inval; exact HI.
   - apply inv_ring_poll; exact HI.
   - apply inv_drop_fd; exact HI.
   - apply inv_close_fd; exact HI.
@@ -824,3 +853,140 @@ Example descriptor_closed_exactly_once_nonvacuous :
   /\ closed s = [(0, Direct); (9, Regular); (7, Regular); (8, Regular)]
   /\ bad s = [] /\ kopen s = [].
 Proof. vm_compute. repeat split. Qed.
+
+(** * The synchronous pipe2(2) fallback of [pipe] ([PipeOp::fallback]) *)
+
+(** The completion [-EINVAL] for a pipe request, annotated with what pipe2(2) will answer. *)
+Definition fallback_result (fd fd2 : N) : cqe := (RInval [fd; fd2], false).
+
+(** A pipe whose request the kernel refused with EINVAL: when its future takes that result —
+    for every history, every position and BOTH requested kinds ([o_kind o] is not looked at) —
+    the two numbers pipe2(2) returns become two new entries of the process descriptor table
+    (kind [Regular], issued at this moment, open), are wrapped in two new [AsyncFd]s whose word
+    decodes to kind [Regular] and to the same numbers, and those are what the caller is told.
+    Second half (non-vacuity, both kinds): for a pipe requested as regular and for one requested
+    as direct there is a history that reaches such a state. *)
+Definition pipe_fallback_wraps_regular : Prop :=
+  (forall cap0 nslots0 es i o fd fd2 rest,
+     let s := reach cap0 nslots0 es in
+     nth_error (ops s) i = Some o -> o_st o = ODone -> o_res o = fallback_result fd fd2 :: rest ->
+     all_fresh s [(fd, Regular); (fd2, Regular)] = true ->
+     let s' := fst (step s (PollOp i)) in
+     kopen s' = kopen s ++ [(fd, Regular); (fd2, Regular)]
+     /\ issued s' = issued s ++ [(fd, Regular); (fd2, Regular)]
+     /\ handles s' = handles s ++ [wrap fd Regular; wrap fd2 Regular]
+     /\ owned s' = owned s ++ [(fd, Regular); (fd2, Regular)]
+     /\ snd (step s (PollOp i)) = [11; 0; nz fd; 11; 0; nz fd2]%Z
+     /\ kind_of (h_word (wrap fd Regular)) = Regular /\ fd_of (h_word (wrap fd Regular)) = fd
+     /\ kind_of (h_word (wrap fd2 Regular)) = Regular /\ fd_of (h_word (wrap fd2 Regular)) = fd2)
+  /\ (forall k, exists cap0 nslots0 es i o fd fd2,
+        let s := reach cap0 nslots0 es in
+        nth_error (ops s) i = Some o /\ o_cop o = CPipe k /\ o_kind o = k /\ o_st o = ODone
+        /\ o_res o = [fallback_result fd fd2]
+        /\ all_fresh s [(fd, Regular); (fd2, Regular)] = true).
+
+(** A pipe is asked for (as [k]), submitted, refused with EINVAL, and the refusal processed. *)
+Definition fallback_ready (k : kind) : list event :=
+  [NewOp (CPipe k); PollOp 0; RingPoll; KPipeInval 0 5 6; RingPoll].
+
+Lemma pipe_fallback_wraps_regular_holds : pipe_fallback_wraps_regular.
+Proof.
+  split.
+  - intros c n es i o fd fd2 rest s Hn Hst Hres F. cbv zeta.
+    pose proof F as F0. apply all_fresh_spec in F0. destruct F0 as (_ & Hds).
+    assert (B1 : fd < two31) by (change fd with (fst (fd, Regular)); apply Hds; left; reflexivity).
+    assert (B2 : fd2 < two31) by (change fd2 with (fst (fd2, Regular)); apply Hds; right; left; reflexivity).
+    unfold step, step_with, poll_op_with. rewrite Hn, Hst, Hres.
+    unfold deliver_with, fallback_result. cbn [fst]. cbn [pair_kind map]. rewrite all_fresh_set_op, F.
+    unfold pipe_fallback_kind. cbn [hand_out fst snd app]. proj.
+    rewrite <- !app_assoc. cbn [app].
+    repeat (split; [reflexivity|]).
+    split.
+    { unfold owned; proj. rewrite !flat_map_app. cbn [flat_map]. rewrite !hdesc_wrap by assumption.
+      rewrite <- !app_assoc. reflexivity. }
+    split.
+    { unfold wrap; cbn [h_word]. rewrite !fd_of_mk_word, !kind_of_mk_word by assumption. reflexivity. }
+    unfold wrap; cbn [h_word]. rewrite !kind_of_mk_word, !fd_of_mk_word by assumption. repeat split.
+  - intros k. exists 4, 4, (fallback_ready k), 0%nat,
+      {| o_cop := CPipe k; o_kind := k; o_st := ODone; o_kin := false; o_posted := [];
+         o_res := [fallback_result 5 6] |}, 5, 6.
+    destruct k; vm_compute; repeat split.
+Qed.
+
+(** The fallback runs inside the poll of a live future and nowhere else: the refusal itself
+    creates nothing, processing it ([Shared::update], whether or not the future still exists)
+    creates nothing and loses nothing, dropping the future creates nothing, and a dropped future
+    cannot be polled — so for an abandoned pipe pipe2(2) is never called. *)
+Definition pipe_fallback_only_in_poll : Prop :=
+  forall s i,
+    (forall fd fd2, frame s (kpipe_inval s i fd fd2))
+    /\ frame s (fst (process_all s))
+    /\ frame s (drop_op s i)
+    /\ (forall o fd fd2, snd (fst (update1 o (fallback_result fd fd2))) = [])
+    /\ (forall o, nth_error (ops s) i = Some o -> fut_alive o = false -> step s (PollOp i) = (s, [])).
+
+Lemma pipe_fallback_only_in_poll_holds : pipe_fallback_only_in_poll.
+Proof.
+  intros s i. split; [|split; [|split; [|split]]].
+  - intros fd fd2. unfold kpipe_inval. destruct (nth_error (ops s) i) as [o|]; [|apply frame_refl].
+    destruct (o_kin o && cop_pair (o_cop o)); [fr|apply frame_refl].
+  - unfold process_all. fr.
+  - unfold drop_op. destruct (nth_error (ops s) i) as [o|]; [|apply frame_refl].
+    destruct (fut_alive o); [|apply frame_refl].
+    destruct (o_st o); try fr. destruct (room s); fr.
+  - intros o fd fd2. unfold update1. destruct (o_st o); reflexivity.
+  - intros o Hn Hf. unfold step, step_with, poll_op_with. rewrite Hn.
+    unfold fut_alive in Hf. destruct (o_st o); try discriminate; reflexivity.
+Qed.
+
+(** The whole life of a pipe requested as DIRECT on a kernel without IORING_OP_PIPE: two
+    regular descriptors 5 and 6 come back; one is dropped with room in the queue (CLOSE with
+    [sqe.fd = 5]), the other with the queue full ([close(6)]); the table of direct slots is
+    never touched. *)
+Example pipe_fallback_direct_request_closed_as_regular :
+  let es := fallback_ready Direct ++ [PollOp 0; DropOp 0; DropFd 0; DropFd 1; RingPoll] in
+  let s := reach 1 4 es in
+  quiescent s = true /\ leak12 s = [] /\ leak19 s = [] /\ bad s = [] /\ kopen s = []
+  /\ issued s = [(5, Regular); (6, Regular)] /\ closed s = [(6, Regular); (5, Regular)]
+  /\ run_obs (init 1 4) es =
+     [1; 1; 10; 1; 21; 0; 1; 1; 1; 11; 0; 5; 11; 0; 6; 1; 1; 1; 30; 6; 1; 20; 1; 5; 0]%Z.
+Proof. vm_compute. repeat split. Qed.
+
+(** The future is dropped before the refusal is processed: no pipe2(2), nothing issued. *)
+Example pipe_fallback_abandoned_no_pipe2 :
+  let es := [NewOp (CPipe Direct); PollOp 0; RingPoll; DropOp 0; KPipeInval 0 5 6; RingPoll; RingPoll] in
+  let s := reach 4 4 es in
+  quiescent s = true /\ issued s = [] /\ kopen s = [] /\ leak12 s = [] /\ bad s = [].
+Proof. vm_compute. repeat split. Qed.
+
+(** ** The variant that wraps with the requested kind (seeded change C07-c) is refuted *)
+
+(** A socket is created as direct and gets slot 5. A pipe requested as direct falls back to
+    pipe2(2), which returns the process descriptors 5 and 6; the variant labels them direct.
+    Dropping the first pipe end clears direct slot 5 — the socket's; dropping the second one and
+    then the socket are closes of slots that are not open; the process descriptors 5 and 6 have
+    no holder and stay open for ever. *)
+Definition requested_kind_history : list event :=
+  [NewOp (CSocket Direct); PollOp 0; RingPoll; KComplete 0 5 0 false; RingPoll; PollOp 0;
+   NewOp (CPipe Direct); PollOp 1; RingPoll; KPipeInval 1 5 6; RingPoll; PollOp 1;
+   DropOp 0; DropOp 1; DropFd 1; DropFd 2; DropFd 0; RingPoll; RingPoll].
+
+Definition pipe_fallback_requested_kind_refuted_stmt : Prop :=
+  exists cap0 nslots0 es,
+    let s := fst (run step_requested_kind (init cap0 nslots0) es) in
+    quiescent s = true /\ leak12 s = [] /\ leak19 s = []
+    (* the two process descriptors are open, nobody holds them: leaked *)
+    /\ kopen s = [(5, Regular); (6, Regular)] /\ owners s = []
+    (* somebody else's direct slot was closed through the mislabelled AsyncFd … *)
+    /\ nth_error (handles s) 0 = Some {| h_word := mk_word 5 Direct; h_std := false; h_live := false |}
+    /\ nth_error (handles s) 1 = Some {| h_word := mk_word 5 Direct; h_std := false; h_live := false |}
+    /\ closed s = [(5, Direct)]
+    (* … and two closes hit nothing (the second pipe end, then the socket's own close) *)
+    /\ bad s = [(6, Direct); (5, Direct)]
+    (* while the code as it is, on the same history, closes everything correctly *)
+    /\ (let s0 := reach cap0 nslots0 es in
+        quiescent s0 = true /\ bad s0 = [] /\ kopen s0 = []
+        /\ closed s0 = [(5, Regular); (6, Regular); (5, Direct)]).
+
+Lemma pipe_fallback_requested_kind_refuted : pipe_fallback_requested_kind_refuted_stmt.
+Proof. exists 4, 8, requested_kind_history. vm_compute. repeat split. Qed.
